@@ -335,7 +335,7 @@ class C11(Check):
                 continue
             with open(p, 'rb') as f:
                 got = f.read()
-            if got != b.data[dname]:
+            if got != self.H.expected_file(b, dname, self.H.gtmp):
                 R.viol('output-altered:%s' % kind,
                        'generation-leaves-outputs-alone',
                        {'case': b.case, 'path': rel}, sub)
@@ -424,7 +424,8 @@ class C11(Check):
                 elif r == 'STDERR':
                     want = H.expected_stderr(b, H.gtmp)
                 else:
-                    want = b.data[b.files[basenames.index(r)][1]]
+                    want = H.expected_file(
+                        b, b.files[basenames.index(r)][1], H.gtmp)
                 if got != want:
                     R.viol('reference-content:%s' % (
                         r if r in ('STDOUT', 'STDERR') else
